@@ -38,7 +38,14 @@ def geometry(name, s=1.0, terminals=True, holes=True, probes=True):
     tdgl, box, circle, ellipse = _tdgl()
     P = tdgl.Polygon
     hol, term, prob = [], [], None
-    if name in ("G1", "G2"):
+    if name == "G1d":  # G1 with terminals that reach deep into the film: they contain interior sites and the centres of interior edges
+        film = P("film", points=box(6.0, 4.0, points=40) * s)
+        term = [
+            P("source", points=box(2.6, 4.4, center=(-3.0, 0.0)) * s),
+            P("drain", points=box(2.2, 3.0, center=(3.0, 0.1)) * s),
+        ]
+        prob = np.array([(-1.0, 0.3), (1.2, -0.2)]) * s
+    elif name in ("G1", "G2"):
         film = P("film", points=box(6.0, 4.0, points=40) * s)
         if name == "G2":
             hol = [P("hole", points=circle(0.8, points=24, center=(0.3, 0.2)) * s)]
